@@ -1,2 +1,3 @@
 import Proofs.RSGeneric
 import Proofs.RSField
+import Proofs.Stream
